@@ -4,15 +4,20 @@
        deliver, drop, duplicate and reorder every datagram (Model/TwoAgents.v): if no pair of
        endpoints is reachable in both directions, then after EVERY schedule neither full agent holds
        a Succeeded pair, neither has a selected pair, and neither is Connected or Disconnected;
-   (2) single agent, every state: a pair BECOMES selected only while an inbound STUN datagram is
+   (2) two-agent REACHABILITY of valid pairs, same composed model, ANY topology: under every schedule in
+       which no signalled candidate supersedes a peer-reflexive one (see sys_run_ok), every valid
+       (Succeeded) pair of either full agent -- in particular the selected pair -- joins a local socket and
+       a remote address whose endpoints reach each other in BOTH directions;
+   (3) single agent, every state: a pair BECOMES selected only while an inbound STUN datagram is
        handled -- every other operation keeps the selection or drops it.
    Decided by the extracted monitor C01.* on runs of two REAL agents over a harness-owned network
    (suite "pair": random topologies with NATed endpoints and one-way links, loss / duplication /
    reordering, restarts), each agent's half being simultaneously checked against the core model:
    mirror images at quiescence and both Connected after a fair loss-free suffix.  Not proved: the
-   mirror-image and liveness parts, and (1) for lite agents. *)
+   mirror-image and liveness parts, (1) and (2) for lite agents, and (2) for schedules with superseding
+   (needs identity invariants for remote candidates). *)
 From Coq Require Import ZArith Bool List.
-From Ice Require Import Model.AgentTypes Model.AgentCore Model.PairMonitor Model.TwoAgents Gen.Consts Proofs.AgentFrame Proofs.AgentC01 Proofs.TwoAgentsProofs.
+From Ice Require Import Model.AgentTypes Model.AgentCore Model.PairMonitor Model.TwoAgents Gen.Consts Proofs.AgentFrame Proofs.AgentC01 Proofs.TwoAgentsProofs Proofs.TwoAgentsReach.
 Import ListNotations.
 Local Open Scope Z_scope.
 
@@ -31,6 +36,19 @@ Theorem C01_never_connected_without_bidirectional_path_partial : forall cfga cfg
   (s_closed (sy_b sy) = false -> s_conn (sy_b sy) <> ConnectionStateConnected /\ s_conn (sy_b sy) <> ConnectionStateDisconnected).
 Proof. exact never_connected_without_bidirectional_path. Qed.
 Print Assumptions C01_never_connected_without_bidirectional_path_partial.
+
+Theorem C01_valid_pairs_reachable_both_ways_partial : forall cfga cfgb t lua lpa lub lpb ops,
+  cf_lite cfga = false -> cf_lite cfgb = false -> topo_wf t ->
+  sys_run_ok cfga cfgb t (sys_init lua lpa lub lpb) ops ->
+  let sy := sys_run cfga cfgb t (sys_init lua lpa lub lpb) ops in
+  Forall (fun p => p_state p = CandidatePairStateSucceeded -> KA t (c_h (p_loc p)) (c_addr (p_rem p))) (s_checklist (sy_a sy)) /\
+  Forall (fun p => p_state p = CandidatePairStateSucceeded -> KB t (c_h (p_loc p)) (c_addr (p_rem p))) (s_checklist (sy_b sy)) /\
+  (forall id, s_selected (sy_a sy) = Some id ->
+     exists p, In p (s_checklist (sy_a sy)) /\ p_id p = id /\ KA t (c_h (p_loc p)) (c_addr (p_rem p))) /\
+  (forall id, s_selected (sy_b sy) = Some id ->
+     exists p, In p (s_checklist (sy_b sy)) /\ p_id p = id /\ KB t (c_h (p_loc p)) (c_addr (p_rem p))).
+Proof. exact valid_pairs_reachable_both_ways. Qed.
+Print Assumptions C01_valid_pairs_reachable_both_ways_partial.
 
 (* non-vacuity, and the hypothesis is needed: one host candidate each; the same schedule leaves both
    agents Checking with nothing selected when the link carries only A->B, and brings both to
@@ -58,6 +76,9 @@ Module C01_example_two_agents.
   Proof. vm_compute. reflexivity. Qed.
   Example both_ways : view (true, true) = (ConnectionStateConnected, Some 1, ConnectionStateConnected, Some 1).
   Proof. vm_compute. reflexivity. Qed.
+  (* the schedule is admissible for the reachability theorem (nothing is superseded) *)
+  Example schedule_admissible : sys_run_ok (cfg 5) (cfg 6) (topo (true, true)) (sys_init 1 2 3 4) sched.
+  Proof. vm_compute. repeat split. Qed.
 End C01_example_two_agents.
 
 (* the pair monitor's mirror check is symmetric in the two sides' views of one (A endpoint, B endpoint) pair *)
